@@ -1223,6 +1223,52 @@ fn part_c_probes(root: &Path, st: &mut Stats) {
             (t, o) => st.fail("oracle", "probe-long-double", format!("unexpected outcome: type {t:?} output {o:?} err {:?}", ro.rustc_err.as_ref().map(|e| e.chars().take(300).collect::<String>())), "probe_long_double"),
         }
     }
+    // 7. C overload sets (`__attribute__((overloadable))`) with one transparent (unmangled) member at every
+    //    position: the member that is renamed `<name><k>` must still reach the symbol `<name>`
+    let tys: [(&str, &str); 6] = [("long", "l"), ("double", "d"), ("int", "i"), ("unsigned", "j"), ("short", "s"), ("float", "f")];
+    for (pi, (k, plain)) in [(2usize, 1usize), (3, 2), (3, 0), (4, 1), (3, 3)].into_iter().enumerate() {
+        // plain == k: no transparent member
+        let name = format!("c04ov{}x", (b'a' + pi as u8) as char);
+        let mut header = String::new();
+        let mut csrc = String::new();
+        let mut syms = vec![];
+        for i in 0..k {
+            let (t, code) = tys[(i + pi) % tys.len()];
+            let attr = if i == plain { "" } else { " __attribute__((overloadable))" };
+            header += &format!("int {name}({t} a){attr};\n");
+            csrc += &format!("int {name}({t} a){attr} {{ return (int)a + {}; }}\n", 100 * (i + 1));
+            syms.push(if i == plain { name.clone() } else { format!("_Z{}{name}{code}", name.len()) });
+        }
+        // a decoy that owns the symbol the renamed member would wrongly bind
+        header += &format!("int {name}9(int a);\n");
+        csrc += &format!("int {name}9(int a) {{ return a + 9000; }}\n");
+        let pname = format!("probe_overload_{pi}");
+        // first pass: learn the bindings, second: call them by symbol
+        let dir = root.join(&pname);
+        std::fs::create_dir_all(&dir).unwrap();
+        util::write(&dir.join("lib.h"), &header);
+        let flags = vec![dir.join("lib.h").to_string_lossy().into_owned(), "--formatter".into(), "none".into()];
+        let out = generate(&flags, CbMode::None, &dir.join("ir.log"));
+        let _ = std::fs::remove_dir_all(&dir);
+        let Some(b) = out.bindings else { st.fail("oracle", "bindgen-failed", format!("{:?} {:?}", out.error, out.panic), &pname); continue };
+        let Ok(inv0) = inv::inventory(&b) else { continue };
+        let mut body = String::new();
+        let mut expect = String::from("R");
+        let mut missing = vec![];
+        for (i, sym) in syms.iter().enumerate() {
+            match inv0.fns.iter().find(|f| inv::elf_symbol(&f.ident, &f.link_name) == *sym) {
+                Some(f) => { body += &format!("print!(\" {{}}\", {}(7 as _));", f.ident); expect += &format!(" {}", 7 + 100 * (i + 1)); }
+                None => missing.push(sym.clone()),
+            }
+        }
+        if !missing.is_empty() {
+            st.fail("oracle", "symbol-unbound", format!("overload set {header:?}: no binding refers to {missing:?}; bindings: {:?}", inv0.fns.iter().map(|f| (f.ident.clone(), f.link_name.clone())).collect::<Vec<_>>()), &pname);
+        }
+        if let Some((_inv, _pred, ro)) = probe(&pname, &header, &csrc, &format!("print!(\"R\"); {body} println!();"), CbMode::None, root, st) {
+            if ro.stdout.trim() != expect { st.fail("oracle", "probe-overload", format!("overload set {header:?}: output {:?}, expected {expect:?}; rustc/link error: {:?}", ro.stdout, ro.rustc_err.as_ref().map(|e| e.chars().take(300).collect::<String>())), &pname); }
+            else { st.distinct.insert(format!("probe:overload:k{k}:plain{plain}")); }
+        }
+    }
 }
 
 struct TFn { name: String, cc: &'static str, attr: &'static str, params: Vec<&'static str> }
